@@ -233,7 +233,7 @@ def _f(v):
 
 
 def run(scn, want=(), fault=None, script=None, fit_faults=None, probe_limit=True, search_script=None,
-        pre_optimize=None, es_thin=None):
+        pre_optimize=None, es_thin=None, fit_closing=None):
     """Execute the scenario. `want` ⊆ {"filter","poll","gp","acq","es","improve","logger"} selects the
     (costlier) seams. Returns a Trace."""
     import pybads.bads.bads as BB
@@ -432,6 +432,27 @@ def run(scn, want=(), fault=None, script=None, fit_faults=None, probe_limit=True
             if s2 is not None:
                 self.s2 = s2
             raise np.linalg.LinAlgError(f"injected GP.fit failure #{i}")
+        if fit_closing and i in fit_closing:
+            # the failure happens in the *closing* step of fit(): the hyperparameter search succeeded, the final posterior
+            # computation (self.update(hyp=...)) fails after gpyreg has already replaced the posteriors by an empty slot
+            tr.events.append(dict(type="fit_fault", i=i, phase=tr.phase, where="closing"))
+            inst_update = self.update
+            state = {"armed": True}
+
+            def upd(*ua, **uk):
+                if state["armed"] and uk.get("hyp") is not None:
+                    state["armed"] = False
+                    self.posteriors = np.empty((1,), dtype=object)
+                    raise np.linalg.LinAlgError(f"injected failure in the closing posterior update of GP.fit #{i}")
+                return inst_update(*ua, **uk)
+            self.update = upd
+            try:
+                return orig_fit(self, *a, **k)
+            finally:
+                try:
+                    del self.update
+                except AttributeError:
+                    pass
         try:
             return orig_fit(self, *a, **k)
         except Exception as e:  # noqa: BLE001
